@@ -353,6 +353,7 @@ type Enc struct {
 	scratchLocals map[*ssa.Alloc]Term
 	specVals      map[string]CVal
 	retGuards     []Term
+	boxDecls      map[string]string // box function name -> argument sort
 }
 
 type modRef struct {
@@ -373,7 +374,7 @@ func newEnc(p *Program, fn *ssa.Function, fc *FuncC) *Enc {
 		edgeGuard: map[[2]int]Term{}, blockG: map[*ssa.BasicBlock]Term{}, oblCtr: map[string]int{},
 		loops: map[*ssa.BasicBlock]*loopInfo{}, backEdge: map[[2]int]bool{}, debugVals: map[string][]ssa.Value{},
 		params: map[string]CVal{}, mulSeen: map[string]bool{}, okCur: "true", curGuard: tTrue, checked: map[string]*ssa.BasicBlock{},
-		known: map[string]string{}, defs: map[string]string{}, expanded: map[string]string{}, scratchLocals: map[*ssa.Alloc]Term{}, specVals: map[string]CVal{}}
+		known: map[string]string{}, defs: map[string]string{}, expanded: map[string]string{}, scratchLocals: map[*ssa.Alloc]Term{}, specVals: map[string]CVal{}, boxDecls: map[string]string{}}
 	return e
 }
 
@@ -870,4 +871,11 @@ func (e *Enc) rpo() []*ssa.BasicBlock {
 		post[i], post[j] = post[j], post[i]
 	}
 	return post
+}
+
+// boxTerm: the interface value holding v of the type with the given key.
+func (e *Enc) boxTerm(key string, v Term) Term {
+	name := "box." + sanitize(key)
+	e.boxDecls[name] = v.Sort
+	return Term{app(name, v.S), sInt}
 }
